@@ -9,6 +9,12 @@ CLAIMS = {
  "C01": dict(ref="5/C01",
    text="For every byte string within the stated length bounds (all 256 byte values for n<=3 quick / n<=4 thorough, a 24-symbol JSON-critical alphabet beyond) and all four AllowInvalidUTF8/AllowDuplicateNames settings, the solver shows that Value.IsValid, a ReadToken loop and a ReadValue loop accept exactly what an independent RFC 8259/7493 recogniser accepts (value counts and io.EOF-only-at-boundary included); every explored path is justified by a solver feasibility verdict and the path set is certified to partition the input space (sum of model counts = 256^n).",
    note="Bounded: inputs longer than the bound, depth-limit behaviour and Unmarshal-into-any are checked by other obligations or are outside this claim. Trusted: gosym's Go semantics (validated each run by replaying sampled solver models natively), z3, the zzspec recogniser."),
+ "C05": dict(ref="5/C05",
+   text="A decoder fed through a reader whose every Read size is chosen by the solver (tiny buffer capacities 2..8 and the real 64-byte buffer, empty reads, EOF delivered with data) is compared call by call with a decoder over the whole slice, for all sequences of ReadToken/ReadValue/SkipValue/PeekKind within the bound and symbolic input bytes (full range and templates): same results, error class/offset/pointer, InputOffset, StackDepth, StackIndex, StackPointer; returned values equal their input span; reader bytes = first InputOffset bytes ++ UnreadBuffer. A second family injects one transient read error at a solver-chosen Read: the pending ReadToken/ReadValue returns it, state is unchanged, the retry continues identically.",
+   note="Bounded: inputs of 2-3 fully symbolic bytes and templates of up to 18 bytes with symbolic holes, 2-3 calls, the first 2-9 Read sizes symbolic then 1-byte reads. UnmarshalRead/UnmarshalDecode for typed targets are reflection-driven and outside this claim. Trusted: gosym semantics (replay-validated), z3."),
+ "C06": dict(ref="5/C06",
+   text="All sequences of 2-4 WriteToken/WriteValue calls (10 call kinds incl. strings with symbolic bytes and raw values with symbolic bytes), from the empty state and from six concrete mid-states, under the four AllowDuplicateNames/AllowInvalidUTF8 settings, against an independent stack-and-name-set model: a call succeeds iff the model accepts it; after every call delivered+buffered bytes equal the model's serialisation of exactly the accepted calls (so a rejected call has no observable effect on anything later), everything is delivered with one newline per top-level value whenever depth returns to 0, and OutputOffset/StackDepth agree.",
+   note="Bounded sequence length and string/raw sizes; whitespace options are covered by C12 obligations. Trusted: gosym semantics (replay-validated), z3, zzspec.EncModel."),
  "C10": dict(ref="5/C10",
    text="ParseUint is compared with an independent decimal reference on every byte string of each length 1..22 (all 2^(8n) inputs per length, symbolic): value exact, overflow exactly at 2^64, syntax errors classified; decided by z3 bit-vector queries.",
    note="Claims the integer-parsing kernel and token accessors only; shortest float formatting / correctly rounded parsing live in strconv and are outside this technique's reach."),
